@@ -37,7 +37,7 @@ def ids(term):
 
 
 def spec_of(c):
-    return {k: c[k] for k in ("id", "kind", "type", "t", "n", "vals", "subs", "mutate", "corrupt", "cancel", "epoch", "epoch_zero", "seq")}
+    return {k: c[k] for k in ("id", "kind", "type", "t", "n", "vals", "subs", "mutate", "corrupt", "cancel", "epoch", "epoch_zero", "straddle", "other_epoch", "seq")}
 
 
 def main():
@@ -53,7 +53,7 @@ def main():
         "the harness's signing root is computed from the raw eth2 objects (domain constants, epoch, hash-tree-root) independently of core/eth2signeddata.go and eth2util/signing; SSZ hashing, the beacon mock's domain computation and herumi BLS are trusted",
     ]
     R.proofs()
-    n = 8000 if R.thorough else 2600
+    n = 8000 if R.thorough else 2750
     rc, out, od = vp.go_harness("sigagg", outdir=os.path.join(vp.WORK, "sigagg_%d" % os.getpid()), env_extra={"VERIF_N": n})
     if rc != 0:
         R.broke("correspondence:harness sigagg failed to run", out[-3000:])
@@ -68,7 +68,7 @@ def main():
     R.coverage["distinct_nontrivial"] = len(seen)
     R.coverage["rule"] = ("one evaluation = one call of sigagg.Aggregate on the real component (sigagg.New + sigagg.NewVerifier over beaconmock) with real tbls shares; "
                           "non-trivial = call whose batch contains at least one corrupted/irregular partial (wrong share's signature, wrong/out-of-range/zero/negative share index, other message, other domain, other fork, "
-                          "other validator's share, zero/truncated/random/infinity/foreign-key signature, bad length, too few, repeats with and without surplus, payload taken from a non-contributing partial, bare-signature objects, attestation ValidatorIndex variants), or whose context is cancelled before the call / right after the k-th verifier invocation (multi-validator batches with 0..2 bad validators at every placement, each repeated because Go's map order is random), or whose validators share one signing root and exchange partials across validators so that the errors cancel in a sum over validators (swaps at one/two/different share indices, cyclic shift among three, genuine partial +D / -D for a foreign point D), or that is a call of a sequence served by ONE long-lived aggregator and verifier (same duty type at epochs in different forks of the beacon mock, both orders, signed for the own epoch's domain and with the other fork's domain; and objects at epochs 0, 1 and around every fork of the schedule signed under the fork version the spec prescribes and under other fork versions, compute_domain evaluated in the harness); "
+                          "other validator's share, zero/truncated/random/infinity/foreign-key signature, bad length, too few, repeats with and without surplus, payload taken from a non-contributing partial, bare-signature objects, attestation ValidatorIndex variants), or whose context is cancelled before the call / right after the k-th verifier invocation (multi-validator batches with 0..2 bad validators at every placement, each repeated because Go's map order is random), or whose validators share one signing root and exchange partials across validators so that the errors cancel in a sum over validators (swaps at one/two/different share indices, cyclic shift among three, genuine partial +D / -D for a foreign point D), or that is a call of a sequence served by ONE long-lived aggregator and verifier (same duty type at epochs in different forks of the beacon mock, both orders, signed for the own epoch's domain and with the other fork's domain; and objects at epochs 0, 1 and around every fork of the schedule signed under the fork version the spec prescribes and under other fork versions, compute_domain evaluated in the harness; and attestations / aggregate-and-proofs whose slot and target epoch lie on different sides of a fork activation, both directions, signed under the fork version of the epoch the spec names and under the other side's); "
                           "distinct by hash of (type, abstract label)")
     dist = collections.Counter()
     for c in cs:
